@@ -353,9 +353,16 @@ func (c *childState) runHistory(hi int, h *history) (abort bool) {
 	lastRange := []int{}
 	started := false
 	crashFree := true
+	prevI, prevN, prevT := -1, 0, "" // the last accepted media upload whose complete process event was received
 	for i, u := range order {
-		cur, _ := json.Marshal(map[string]any{"H": hi, "I": i, "N": u.N, "T": u.T})
-		_ = os.WriteFile(c.part+".cur", cur, 0o644)
+		// progress marker for the parent; Seen = process events of THIS upload received so far.  The deferred hook
+		// also fires while the channel goroutine is unwinding a panic, so the driver may already have moved on to the
+		// next upload when the process dies: a death with Seen = 0 belongs to the previous upload.
+		mark := func(seen int) {
+			cur, _ := json.Marshal(map[string]any{"H": hi, "I": i, "N": u.N, "T": u.T, "Seen": seen, "PI": prevI, "PN": prevN, "PT": prevT})
+			_ = os.WriteFile(c.part+".cur", cur, 0o644)
+		}
+		mark(0)
 		var data []byte
 		var name, kind, dig string
 		var dts, dur int64
@@ -392,6 +399,9 @@ func (c *childState) runHistory(hi int, h *history) (abort bool) {
 			for {
 				select {
 				case ev := <-procCh:
+					if nproc == 0 && ev["track"] == u.T {
+						mark(1)
+					}
 					nproc++
 					complete, _ := ev["complete"].(bool)
 					if complete && ev["track"] == u.T && toInt(ev["seqNr"]) == u.N {
@@ -441,6 +451,9 @@ func (c *childState) runHistory(hi int, h *history) (abort bool) {
 		}
 		c.emit(tr.E{"ev": "up", "i": i, "track": u.T, "kind": kind, "n": u.N, "status": status, "dts": dts, "dur": dur, "h": dig,
 			"processed": processed, "nproc": nproc, "files": files, "mpd": mo, "hook": hk})
+		if processed {
+			prevI, prevN, prevT = i, u.N, u.T
+		}
 		if status < 0 || (status == http.StatusOK && kind == "media" && !processed) {
 			crashFree = false
 			break
